@@ -61,11 +61,20 @@ pub fn next_solution_append<'a>(bip: BuiltInPredicate,
                     let mut list = t;
                     loop {
                         if let Unifiable::SLinkedList{term, next,
-                                          count: _, tail_var: _} = list {
+                                          count: _, tail_var} = list {
                             if *term == Unifiable::Nil { break; }
+                            // A tail variable which is bound to a
+                            // list continues the list.
+                            if tail_var {
+                                if let Some(rest) = get_list(&term, &ss) {
+                                    list = rest.clone();
+                                    continue;
+                                }
+                            }
                             out_terms.push(*term);
                             list = *next;
                         }
+                        else { break; }
                     }
                 },
                 // LogicVar was dealt with above.
